@@ -3,4 +3,5 @@ From FEC Require Import Models.EnumsM Models.EnumsTables.
 Extraction Language OCaml.
 Set Extraction Output Directory ".".
 Extraction "c03_x.ml" c03_enum_mismatches c03_classification_mismatches c03_registry_mismatches
-  c03_enum_mismatches_after c03_classification_mismatches_after c03_registry_mismatches_after.
+  c03_enum_mismatches_after c03_classification_mismatches_after c03_registry_mismatches_after
+  c03_enum_mismatches_public c03_classification_mismatches_public c03_registry_mismatches_public.
